@@ -2403,6 +2403,11 @@ class DiskObjectStore(PackBasedObjectStore):
                 # renames this same file, which a live mapping blocks on
                 # Windows. PackData.close() leaves f open for it to finish.
                 with PackData(path, file=f, object_format=self.object_format) as pd:
+                    # Verify the trailing pack checksum before indexing:
+                    # _complete_pack rewrites the trailer in place, so a
+                    # stream that lost part of it would otherwise have the
+                    # tail of its last object overwritten instead.
+                    pd.check()
                     indexer = PackIndexer.for_pack_data(
                         pd,
                         resolve_ext_ref=self.get_raw,
